@@ -369,7 +369,7 @@ def run_job(job):
                 {"strs": [Bs, bad], "warm": [A, bad]}][job["idx"]]
         case = {"strs": [x.hex() for x in scen["strs"]], "warm": [x.hex() for x in scen["warm"]]}
         calls, warm, judge = _concur_setup(case)
-        ex = concur.explore_calls(acc, calls, ("bits/base58.py",), 1 if job["tier"] == "quick" else 2, judge, "concur", case, warmup=warm)
+        ex = concur.explore_calls(acc, calls, ("bits/base58.py",), 1 if job["tier"] == "quick" else 2, judge, "concur", case, warmup=warm, max_exec=6000 if job["tier"] == "quick" else 100_000)
         acc.ob("concurrent_calls", ex.executions)
         acc.sample({"concurrent_decode": case, "executions": ex.executions})
         return acc.result()
